@@ -354,6 +354,37 @@ func normUnknownKeys(m protoreflect.Message) {
 	})
 }
 
+// deepEncodings returns, per self-recursive field of md, the encoding of a message nested depth levels through it
+// (built inside out on the wire: no recursion in the harness).
+func deepEncodings(md protoreflect.MessageDescriptor, depth int) [][]byte {
+	var out [][]byte
+	for i := 0; i < md.Fields().Len(); i++ {
+		fd := md.Fields().Get(i)
+		isMapRec := fd.IsMap() && fd.MapValue().Message() == md
+		if !isMapRec && fd.Message() != md {
+			continue
+		}
+		base := dynamicpb.NewMessage(md)
+		fillRequired(base, 1)
+		inner, err := refMarshal.Marshal(base)
+		if err != nil {
+			continue
+		}
+		req := inner // what every level carries besides the recursive field
+		cur := inner
+		for d := 0; d < depth; d++ {
+			payload := cur
+			if isMapRec {
+				// entry: key (field 1, default value omitted) + value (field 2)
+				payload = refwire.AppendLen(refwire.AppendKey(nil, 2, refwire.WTLen), cur)
+			}
+			cur = append(refwire.AppendLen(refwire.AppendKey(nil, int(fd.Number()), refwire.WTLen), payload), req...)
+		}
+		out = append(out, cur)
+	}
+	return out
+}
+
 func stripUnknown(m protoreflect.Message) {
 	m.SetUnknown(nil)
 	m.Range(func(fd protoreflect.FieldDescriptor, v protoreflect.Value) bool {
@@ -577,7 +608,7 @@ func TestC06(t *testing.T) {
 }
 
 func TestC07(t *testing.T) {
-	rec := ev.New("C07", ruleValues+"each value is encoded canonically with 1..6 well-formed unknown fields (numbers outside the schema incl. >= 2^26 and inside extension ranges but not declared, wire types 0/1/2/5) inserted at every nesting level and interleaved with the known fields (field order permuted); oracle: Unmarshal ok, Size()==len(Marshal()), and the reference decode of the re-marshaled bytes carries byte-identical unknown fields at every level and an equal known part; non-trivial = >= 1 unknown field; distinct by (type, bytes)")
+	rec := ev.New("C07", ruleValues+"each value is encoded canonically with 1..6 well-formed unknown fields (numbers outside the schema incl. >= 2^26 and inside extension ranges but not declared, wire types 0/1/2/5) inserted at every nesting level and interleaved with the known fields (field order permuted); 1 in 3 decoded into an object that already holds another value with unknown fields (1 in 4 of those: the empty input); oracle: Unmarshal ok, Size()==len(Marshal()), and the reference decode of the re-marshaled bytes carries byte-identical unknown fields at every level and an equal known part; non-trivial = >= 1 unknown field; distinct by (type, bytes)")
 	defer rec.Write()
 	useRecorder(rec)
 	defer func() { t.Log(rec.Summary()); fmt.Print(rec.SurveyReport()) }()
@@ -591,6 +622,18 @@ func TestC07(t *testing.T) {
 		v, _ := canon(genDyn(rt, mt.Desc, 3, genOpts{runtime: mt.Info.Runtime, requiredProb: 10, maxMap: 1}))
 		var st varStats
 		c := &BCase{Type: mt.Key(), Bytes: encodeVariant(rt, v, varOpts{unknowns: true, permute: true}, &st, 0)}
+		if rapid.IntRange(0, 2).Draw(rt, "reused") == 0 {
+			// the destination is a message object that was used before: it holds another value WITH unknown fields,
+			// none of which may show up in the next Marshal
+			var st2 varStats
+			pv, _ := canon(genDyn(rt, mt.Desc, 2, genOpts{runtime: mt.Info.Runtime, requiredProb: 10, maxMap: 1}))
+			c.Pre = encodeVariant(rt, pv, varOpts{unknowns: true}, &st2, 0)
+			rec.Class("destination-used-before")
+			if rapid.IntRange(0, 3).Draw(rt, "emptyinput") == 0 && len(requiredSlots(mt.Desc, nil, 0, map[protoreflect.FullName]int{})) == 0 {
+				c.Bytes = []byte{} // the empty message arrives in a used object
+				st = varStats{}
+			}
+		}
 		c.Note = fmt.Sprintf("unknown fields inserted: %d", st.unknown)
 		rec.Eval(1)
 		rec.Class("variant/" + mt.Info.Variant)
@@ -603,7 +646,7 @@ func TestC07(t *testing.T) {
 }
 
 func TestC08(t *testing.T) {
-	rec := ev.New("C08", ruleValues+"valid encodings are mutated (truncate at an offset, overwrite a byte with {00,7f,80,ff,b^1,b^2,b^4,b^80}, inflate a length prefix to {remaining+1, 2^31-1, 2^31, 2^32, 2^40, 2^63, 2^64-1}, change a key's wire type incl. groups at the top level or inside a nested payload / map entry, append garbage, a varint value with bits beyond 32 set, hostile length for an existing number, plain random bytes); the quick tier also truncates at every offset and overwrites every byte of the sweep encodings of each type; oracle: returns (no panic), bytes allocated <= 4 KiB + len*(576+2*S), and when both decoders accept the messages are equal; non-trivial = the input is not a valid canonical encoding; distinct by (type, bytes)")
+	rec := ev.New("C08", ruleValues+"valid encodings are mutated (truncate at an offset, overwrite a byte with {00,7f,80,ff,b^1,b^2,b^4,b^80}, inflate a length prefix to {remaining+1, 2^31-1, 2^31, 2^32, 2^40, 2^63, 2^64-1}, change a key's wire type incl. groups at the top level or inside a nested payload / map entry, append garbage, a varint value with bits beyond 32 set, hostile length for an existing number, plain random bytes); messages nested 3000 levels deep through every self-recursive field; the quick tier also truncates at every offset and overwrites every byte of the sweep encodings of each type; oracle: returns (no panic), bytes allocated <= 4 KiB + len*(576+2*S), and when both decoders accept the messages are equal; non-trivial = the input is not a valid canonical encoding; distinct by (type, bytes)")
 	defer rec.Write()
 	useRecorder(rec)
 	defer func() { t.Log(rec.Summary()); fmt.Print(rec.SurveyReport()) }()
@@ -623,6 +666,13 @@ func TestC08(t *testing.T) {
 		}
 		rec.NonTrivial(ev.FP(c.Type, c.Bytes))
 		rec.Check(tb, "bcase", c, f)
+	}
+	// systematic: messages nested thousands of levels deep through every self-recursive field (singular, list
+	// element, map value, oneof member) - no crash, allocation proportional to the input
+	for _, mt := range mine {
+		for _, b := range deepEncodings(mt.Desc, 3000) {
+			one(t, &BCase{Type: mt.Key(), Bytes: b, Note: "deeply-nested"}, "systematic/deeply-nested")
+		}
 	}
 	// systematic: every truncation and every single-byte overwrite of a few sweep encodings per type
 	for _, mt := range mine {
